@@ -724,15 +724,18 @@ theorem mergeSegs_zero (v : Bool) (m : Nat) (segs : List Seg) (drops : List (Opt
     (h : newDocCount segs drops = 0) :
     mergeSegs v m segs drops =
       ({ chunkMode := m, numDocs := 0,
-         fields := ((mergedFieldNames segs).take 1).map (fun nm => { name := nm }), stored := [] }, []) := by
+         fields := ((mergedFieldNames segs).take 1).map (fun nm => { name := nm }), stored := [] },
+       remapAll segs drops 0) := by
   unfold mergeSegs
   simp only [h, if_true]
 
-theorem mergeSegs_maps (v : Bool) (m : Nat) (segs : List Seg) (drops : List (Option (List Nat)))
-    (h : newDocCount segs drops ≠ 0) :
+/-- the maps are those of `remapAll` whether or not anything survives -/
+theorem mergeSegs_maps (v : Bool) (m : Nat) (segs : List Seg) (drops : List (Option (List Nat))) :
     (mergeSegs v m segs drops).2 = remapAll segs drops 0 := by
   unfold mergeSegs
-  simp only [h, if_false]
+  by_cases h : newDocCount segs drops = 0
+  · simp only [h, if_true]
+  · simp only [h, if_false]
 
 theorem mergeSegs_stored (v : Bool) (m : Nat) (segs : List Seg) (drops : List (Option (List Nat)))
     (h : newDocCount segs drops ≠ 0) :
